@@ -218,11 +218,16 @@ def rule_identity(ctx):
                     shared_init[st_.targets[0].id] = v_
         probs = []
         try:
-            for history in ("sync", "pending", "after success", "after error"):
+            for history in ("sync", "pending", "after success", "after error", "after success (reply not serializable, fallback ERROR sent)",
+                            "after error (reply not serializable, fallback ERROR sent)"):
                 sent = []
+                attempts = []
 
-                def default(f_, a_, k_=None):
+                def default(f_, a_, k_=None, _fallback="fallback" in history):
                     if f_ == "self._transport.send":
+                        attempts.append(a_[0])
+                        if _fallback and len(attempts) == 1:
+                            raise TinyRaise("SerializationError")
                         sent.append(a_[0])
                         return None
                     if f_ == "message.Yield":
@@ -258,7 +263,7 @@ def rule_identity(ctx):
                                  f"{r[0]} {str(r[1])[:40]}, sent {sent}; expected one YIELD(progress=True) for the request")
                 elif history.startswith("after") and sent:
                     probs.append(f"progress() {history}(): a progressive YIELD is sent after the terminal reply of the invocation")
-            ctx.ob("progress(): a progressive result is sent while the endpoint runs or the invocation is pending, never after the terminal reply [4 histories]",
+            ctx.ob("progress(): a progressive result is sent while the endpoint runs or the invocation is pending, never after the terminal reply [6 histories]",
                    not probs, "; ".join(probs[:2]), om.fn.loc(pf))
         except AnalysisError as e:
             raise AnalysisError(f"[C10.4-reply-identity-and-arguments] progress() outside the modelled subset: {e}")
